@@ -38,6 +38,19 @@ use crate::{
 
 use super::expression::process_dot_name;
 
+/// The token in front of a function body - the `function` keyword, or the name of the function - with the space which
+/// the configuration puts between it and the parameters. A single line comment behind the token ends the line: nothing
+/// is appended in that case (see [`function_body_below_comment`])
+fn append_function_definition_trivia(ctx: &Context, token: TokenReference) -> TokenReference {
+    if token.has_trailing_comments(CommentSearch::Single) {
+        token
+    } else {
+        token.update_trailing_trivia(FormatTriviaType::Append(vec![
+            create_function_definition_trivia(ctx),
+        ]))
+    }
+}
+
 /// If the token in front of a function body - the `function` keyword, or the name of the function - is followed by a single
 /// line comment, the function body has to start a new line: its first token would otherwise become part of the comment
 fn function_body_below_comment(
@@ -75,9 +88,10 @@ pub fn format_anonymous_function(
     shape: Shape,
 ) -> Box<(TokenReference, FunctionBody)> {
     const FUNCTION_LEN: usize = "function".len();
-    let function_definition_trivia = vec![create_function_definition_trivia(ctx)];
-    let function_token = fmt_symbol!(ctx, &anonymous_function.0, "function", shape)
-        .update_trailing_trivia(FormatTriviaType::Append(function_definition_trivia));
+    let function_token = append_function_definition_trivia(
+        ctx,
+        fmt_symbol!(ctx, &anonymous_function.0, "function", shape),
+    );
     let function_body =
         format_function_body(ctx, &anonymous_function.1, shape.add_width(FUNCTION_LEN));
     let function_body = function_body_below_comment(ctx, &function_token, function_body, shape);
@@ -1302,19 +1316,19 @@ pub fn format_local_function(
     // Calculate trivia
     let leading_trivia = vec![create_indent_trivia(ctx, shape)];
     let trailing_trivia = vec![create_newline_trivia(ctx)];
-    let function_definition_trivia = vec![create_function_definition_trivia(ctx)];
 
     let local_token = fmt_symbol!(ctx, local_function.local_token(), "local ", shape)
         .update_leading_trivia(FormatTriviaType::Append(leading_trivia));
     let function_token = fmt_symbol!(ctx, local_function.function_token(), "function ", shape);
-    let formatted_name = format_token_reference(ctx, local_function.name(), shape)
-        .update_trailing_trivia(FormatTriviaType::Append(function_definition_trivia));
+    let formatted_name = append_function_definition_trivia(
+        ctx,
+        format_token_reference(ctx, local_function.name(), shape),
+    );
 
     let shape = shape + (6 + 9 + strip_trivia(&formatted_name).to_string().len()); // 6 = "local ", 9 = "function "
     let function_body = format_function_body(ctx, local_function.body(), shape)
         .update_trailing_trivia(FormatTriviaType::Append(trailing_trivia));
-    let function_body =
-        function_body_below_comment(ctx, &formatted_name, function_body, shape);
+    let function_body = function_body_below_comment(ctx, &formatted_name, function_body, shape);
 
     LocalFunction::new(formatted_name)
         .with_local_token(local_token)
